@@ -17,6 +17,8 @@ import csv
 
 from cutplace import data, errors, interface
 
+from vlib.runner import par_map
+
 PROPERTY_ID = "C11"
 RULE = (
     "Complete enumeration, judged both through DataFormat.set_property (+ validate) and through Cid.read on D rows: "
@@ -703,7 +705,106 @@ THOROUGH_EXTRA = (list(range(0xC0, 0x100)) + list(range(0x391, 0x3AA)) + list(ra
                   + list(range(0x4E00, 0x4E20)) + [0x2026, 0x20AC, 0x2122, 0xFFFD])  # BMP only: \\uHHHH is the documented escape
 
 
+# -- spellings of one character agree, whatever the character ------------------------------------------------------
+# code points nobody documents as delimiters one way or the other (controls, non-characters, a private-use and a
+# supplementary code point, format characters, the surrogate range): whether they are taken or refused is left open,
+# but a code written as decimal number, as hex number and as \u / \U escape is the same character every time
+AGREEMENT_CODES = [1, 0x1F, 0x7F, 0x85, 0xAD, 0xD7FF, 0xD800, 0xDBFF, 0xDC00, 0xDFFF, 0xE000, 0xFFFE, 0xFFFF, 0x10000,
+                   0x10FFFF, 0x200B, 0x2028, 0xFEFF]
+
+
+def _agreement_spellings(code):
+    result = [("decimal", str(code)), ("hex", "0x%x" % code), ("hex", "0X%04X" % code)]
+    for quote in "\"'":
+        if code <= 0xFFFF:
+            result.append(("escaped-u", quote + "\\u%04x" % code + quote))
+        result.append(("escaped-U", quote + "\\U%08X" % code + quote))
+    return result
+
+
+def check_agreement(sub, case):
+    code, name = case["code"], case["property"]
+    outcomes = {}
+    for kind, text in _agreement_spellings(code):
+        data_format = data.DataFormat("delimited")
+        sub.evaluations += 1
+        try:
+            data_format.set_property(name, text)
+            outcomes[(kind, text)] = ("taken", _actual(data_format, name.replace(" ", "_")))
+        except errors.InterfaceError:
+            outcomes[(kind, text)] = ("refused", None)
+        except Exception as error:
+            sub.fail("C11|refusal-type|%s|%s" % (type(error).__name__, name), case,
+                     "%s := %r: %s instead of InterfaceError (or acceptance): %s" % (
+                         name, text, type(error).__name__, error))
+            return
+    sub.case(("agreement", name, code), True, ["agreement:%s" % name, "agreement:%s" % (
+        "taken" if any(o[0] == "taken" for o in outcomes.values()) else "refused")])
+    if len(set(outcomes.values())) > 1:
+        sub.fail("C11|spellings-disagree|%s" % name, case, "%s: spellings of U+%04X are not read alike: %r" % (
+            name, code, sorted((text, outcome) for (_, text), outcome in outcomes.items())))
+
+
+def _agreement_shard(_):
+    from vlib.runner import Sub
+
+    sub = Sub("agreement")
+    for code in AGREEMENT_CODES:
+        check_agreement(sub, {"part": "agreement", "code": code, "property": "item delimiter"})
+    return sub
+
+
+# -- encodings are those the runtime knows - at the time of asking -----------------------------------------------
+def _late_codec_shard(number):
+    """An encoding name the runtime does not know is refused; once a codec of that name has been registered (what
+    importing a codec package does) the same name is an encoding the runtime knows."""
+    from vlib.runner import Sub
+
+    sub = Sub("late-codec")
+    name = ["x-verif-late", "verif_codec_2"][number % 2]
+    via = ["direct", "cid"][number // 2 % 2]
+    case = {"part": "late-codec", "name": name, "via": via}
+
+    def attempt():
+        if via == "direct":
+            data_format = data.DataFormat("delimited")
+            data_format.set_property("encoding", name)
+        else:
+            cid = interface.Cid()
+            cid.read("late-codec", [["D", "Format", "Delimited"], ["D", "Encoding", name], ["F", "a"]])
+
+    def search(wanted):
+        if wanted.replace("-", "_") == name.replace("-", "_"):
+            found = codecs.lookup("utf-8")
+            return codecs.CodecInfo(found.encode, found.decode, found.streamreader, found.streamwriter,
+                                    found.incrementalencoder, found.incrementaldecoder, name=name)
+        return None
+
+    sub.case(("late-codec", name, via), True, ["late-codec:" + via])
+    outcomes = []
+    for step in ("unknown", "known"):
+        sub.evaluations += 1
+        try:
+            attempt()
+            outcomes.append("accepted")
+        except errors.InterfaceError:
+            outcomes.append("refused")
+        except Exception as error:
+            sub.fail("C11|refusal-type|%s|encoding" % type(error).__name__, case, "%s encoding %r: %s: %s" % (
+                step, name, type(error).__name__, error))
+            return sub
+        if step == "unknown":
+            codecs.register(search)
+    if outcomes != ["refused", "accepted"]:
+        sub.fail("C11|encoding|late-codec|%s-then-%s" % tuple(outcomes), case,
+                 "encoding %r (%s): %s while the runtime did not know it, %s after a codec of that name was registered" % (
+                     name, via, outcomes[0], outcomes[1]))
+    return sub
+
+
 def run(ctx):
+    ctx.par(_agreement_shard, [0])
+    ctx.par(_late_codec_shard, [0, 1, 2, 3])
     if not ctx.quick:
         for code in THOROUGH_EXTRA:
             if code not in POOL and chr(code).isprintable():
@@ -713,5 +814,14 @@ def run(ctx):
 
 
 def replay(sub, case):
+    if case.get("part") == "agreement":
+        check_agreement(sub, case)
+        return
+    if case.get("part") == "late-codec":
+        # needs a process whose codec registry has never heard of the name
+        number = ["x-verif-late", "verif_codec_2"].index(case["name"]) + 2 * ["direct", "cid"].index(case["via"])
+        for found in par_map(_late_codec_shard, [number, number]):
+            sub.merge(found)
+        return
     check_case(sub, case)
     sub.evaluations += 1
